@@ -86,13 +86,16 @@ def expected(case):
 _BASES = {}
 
 
-VARIANTS = [None, "utf8", "push"]      # plain | header_encoding='utf-8' | a PUSH_PROMISE (other method) before the response
+# plain | header_encoding='utf-8' | header validation off (the length rules are not header-list rules) | a PUSH_PROMISE
+# (other method) before the response
+VARIANTS = [None, "utf8", "novalidate", "push"]
 
 
 def base(direction, variant=None):
-    k = (direction, variant == "utf8")
+    k = (direction, variant if variant in ("utf8", "novalidate") else None)
     if k not in _BASES:
-        h = H.Solo(client=(direction == "B"), **({"header_encoding": "utf-8"} if variant == "utf8" else {}))
+        cfg = {"utf8": {"header_encoding": "utf-8"}, "novalidate": {"validate_inbound_headers": False}}.get(variant, {})
+        h = H.Solo(client=(direction == "B"), **cfg)
         _BASES[k] = pickle.dumps(h.conn)
     return pickle.loads(_BASES[k])
 
